@@ -36,6 +36,7 @@ class Ref(object):
         self.outcomes = {}     # tid -> ["ok", v] | ["exc", key]
         self.defs = {}         # tid -> (task, scope) created by "mk", not yet evaluated
         self.order = []        # tids in evaluation (sequential start) order
+        self.probe_value = "sync-ok"   # what a plain synchronous call of an @asynq() function gives inside a body
         n = prog.get("nsv", 2)
         self.init_scope = {"sv": {i: ["init", i] for i in range(n)}, "attr": {i: ["init-attr", i] for i in range(n)}}
 
@@ -113,6 +114,8 @@ class Ref(object):
                 raise _Exc(["raise", tid, st["sid"]])
             elif op == "result":
                 raise _Result()
+            elif op == "probe":
+                got.append(["probe", self.probe_value])
             elif op == "mk":
                 self.defs[st["task"]["id"]] = (st["task"], {"sv": dict(scope["sv"]), "attr": dict(scope["attr"])})
             else:
@@ -164,4 +167,6 @@ class Ref(object):
             return ["ok", ["lazy", s[2]]] if s[1] == "ok" else ["exc", ["lazy", s[2]]]
         if tag == "bad":
             return ["exc", "TypeError"]
+        if tag == "afn":
+            return ["ok", ["afn", s[1]]]
         raise AssertionError(tag)
